@@ -397,6 +397,44 @@ def plan(ctx):
     ubh = bmp_header_unit(ctx, src)
     ctx.functions_under_contract += ubh.functions
     groups += bmp_misc_groups(ctx, src, dim)
+    # P7 (PAM) header loop: terminates on every stream and rejects an end of file inside the header (stubs/C06_p7.h)
+    up7 = Unit(ctx, 'p7_header')
+    up7.raw('#include "contracts/C06_p7.h"\n')
+    lit = lambda mo: str(len(bytes(mo.group(1), 'utf-8').decode('unicode_escape')))
+    up7.block(src, 'src/Image.cc', r'void Image::load\(FILE\* f\)', r'if \(is_extended_ppm\)',
+              new_header='void Image_load_p7_header(C6FILE* f, size_t* new_width_p, size_t* new_height_p, uint64_t* new_max_value_p, size_t* new_depth_p, C6Format* format_p)',
+              ret_zero='', nloops=1,
+              loops={1: '__CPROVER_assigns(verif_exc, g_rem, new_width, new_height, new_max_value, new_depth, format)\n'
+                        '__CPROVER_loop_invariant(verif_exc == 0)\n'
+                        '__CPROVER_decreases(g_rem)'},
+              rules=[Rule(r'\bfgetc\(f\)', 'c6_fgetc(f)', count=None, regex=True),
+                     Rule(r'string line = fgets\(f\);', 'cline line; c6_fgets(&line, f);', count=1, regex=True),
+                     Rule(r'strip_trailing_whitespace\(line\);', 'c6_strip_trailing_whitespace(&line);', count=None, regex=True),
+                     Rule(r'starts_with\((\w+), "([^"]*)"\)', lambda mo: 'c6_starts_with(&%s, %d)' % (mo.group(1), len(mo.group(2))), count='+', regex=True),
+                     Rule(r'stoull\((\w+)\.substr\((\d+)\)\)', r'c6_stoull_sub(&\1, \2)', count=None, regex=True),
+                     Rule(r'(c6_stoull_sub\([^;]*\);)', r'\1 if (verif_exc) return;', count=None, regex=True),
+                     Rule(r'string (\w+) = (\w+)\.substr\((\d+)\);', r'cline \1; c6_substr(&\1, &\2, \3);', count=None, regex=True),
+                     Rule(r'\b(\w+) == "([^"]*)"', lambda mo: 'c6_equals(&%s, %d)' % (mo.group(1), len(mo.group(2))), count='+', regex=True),
+                     Rule(r'\b(\w+)\.empty\(\)', r'(\1.len == 0)', count=None, regex=True),
+                     Rule(r'\b(line|tuple_type)\[([^\]]+)\]', r'c6_at(&\1, \2)', count=None, regex=True),
+                     Rule(r'Format::(\w+)', r'Format_\1', count=None, regex=True)],
+              )
+    # parameters by reference -> locals copied in/out (the block reads and writes the enclosing function's locals)
+    txt = up7.parts[-1]
+    i = txt.index('{')
+    txt = (txt[:i + 1] + ' size_t new_width = *new_width_p, new_height = *new_height_p, new_depth = *new_depth_p; uint64_t new_max_value = *new_max_value_p; '
+           'C6Format format = *format_p;\n#define P7_OUT { *new_width_p = new_width; *new_height_p = new_height; *new_depth_p = new_depth; *new_max_value_p = new_max_value; *format_p = format; }\n'
+           + txt[i + 1:])
+    j = txt.rindex('}')
+    txt = txt[:j] + ' P7_OUT }' + txt[j + 1:]
+    up7.parts[-1] = ('static inline unsigned long long c6_stoull_sub(const cline* line, size_t pos) { cline verif_s; c6_substr(&verif_s, line, pos); return c6_stoull(&verif_s); }\n'
+                     + txt)
+    up7.write()
+    ctx.functions_under_contract += up7.functions
+    groups.append(Group(name='Image.load.p7_header', harness='harness/C06/p7.c', entry='h_p7_header', function='Image::load (P7 header loop)',
+                        enforce='Image_load_p7_header', replace=['c6_fgets', 'c6_fgetc', 'c6_strip_trailing_whitespace', 'c6_starts_with', 'c6_equals', 'c6_substr', 'c6_stoull', 'c6_at'],
+                        loops=True, kind='loop-contract', object_bits=12,
+                        clause_note='contracts/C06_p7.h: the header loop terminates for every stream (variant: bytes left) and an end of file inside the header is an exception'))
     heavy = lambda g: 0 if ('identity[alpha' in g.name or 'load.bmp[' in g.name or 'save.bmp[' in g.name) else 1 if 'gray' in g.name else 2
     groups.sort(key=heavy)     # long-running queries first (better packing of the job slots); the sort is stable
     return groups
